@@ -1,4 +1,5 @@
 import ParryModel.C14.Lemmas
+import ParryModel.C14.Theorems2
 /-!
 # C14 property theorems: persistent contact manifolds, for every linearly ordered field.
 
